@@ -127,8 +127,17 @@ where
     while n < n_max {
         let guess = f(initial);
         let new_guess = f(guess);
-        let diff = initial
-            - (guess - initial).powi(2) / (new_guess - N::from_f64(2.0).unwrap() * guess + initial);
+        let denom = new_guess - N::from_f64(2.0).unwrap() * guess + initial;
+        if denom == N::zero() {
+            // The second difference vanishes once the iterates have stopped
+            // moving: the fixed point has been reached to working precision
+            // and the acceleration step would divide zero by zero
+            if (guess - initial).abs() <= tol {
+                return Ok(new_guess);
+            }
+            return Err("Steffensen: second difference vanished".to_owned());
+        }
+        let diff = initial - (guess - initial).powi(2) / denom;
         if (diff - initial).abs() <= tol {
             return Ok(diff);
         }
